@@ -79,3 +79,31 @@ pub fn c02_las(args: &[String], seed: u64) -> Vec<String> {
     }
     vec![format!("{{\"oracle\":\"c02_las\",\"status\":\"pass\",\"evaluations\":3000}}")]
 }
+
+/// Cross-check of the Las128 primitive contracts (units/common/prims_las.rs) against the real bitvec expressions used in
+/// token_ring.rs: range any(), range fill(false), iter_ones find / rev find / next / next_back.  Sampled (not a proof).
+pub fn prims_bits(_args: &[String], seed: u64) -> Vec<String> {
+    std::panic::set_hook(Box::new(|_| {}));
+    let mut s = seed ^ 0x5151_5151;
+    let mut n = 0u64;
+    for _ in 0..20000 {
+        let raw = [(lcg(&mut s) << 32 | lcg(&mut s)) as usize & if lcg(&mut s) % 4 == 0 { 0x8000_0000_0000_0101 } else { usize::MAX }, (lcg(&mut s) << 31 ^ lcg(&mut s)) as usize & if lcg(&mut s) % 3 == 0 { 0 } else { usize::MAX }];
+        let b: bitvec::BitArr!(for 128) = bitvec::array::BitArray::new(raw);
+        let member = |i: usize| (raw[i / 64] >> (i % 64)) & 1 == 1;
+        let (mut lo, mut hi) = ((lcg(&mut s) % 129) as usize, (lcg(&mut s) % 129) as usize);
+        if lo > hi { core::mem::swap(&mut lo, &mut hi); }
+        let t = (lcg(&mut s) % 128) as u8;
+        n += 1;
+        let fail = |what: &str| vec![format!("{{\"oracle\":\"prims_bits\",\"status\":\"fail\",\"input\":[{},{},{lo},{hi},{t}],\"observed\":\"{what}\"}}", raw[0], raw[1])];
+        if b[lo..hi].any() != (lo..hi).any(|i| member(i)) { return fail("range any()"); }
+        let mut c = b.clone(); c[lo..hi].fill(false);
+        if (0..128).any(|i| c[i] != (member(i) && !(lo <= i && i < hi))) { return fail("range fill(false)"); }
+        let it = || b.iter_ones().map(|a| a as u8);
+        if it().find(|a| *a > t) != (t as usize + 1..128).find(|i| member(*i)).map(|i| i as u8) { return fail("first above"); }
+        if it().rev().find(|a| *a < t) != (0..t as usize).rev().find(|i| member(*i)).map(|i| i as u8) { return fail("last below"); }
+        if it().next() != (0..128).find(|i| member(*i)).map(|i| i as u8) { return fail("first"); }
+        if it().next_back() != (0..128).rev().find(|i| member(*i)).map(|i| i as u8) { return fail("last"); }
+        if (0..128).any(|i| b[i] != member(i)) { return fail("index"); }
+    }
+    vec![format!("{{\"oracle\":\"prims_bits\",\"status\":\"pass\",\"evaluations\":{n}}}")]
+}
